@@ -81,7 +81,7 @@ void VERIF_mpi_post_hook(int source, int tag, int *buf)
 }
 void VERIF_mpi_deliver_hook(MpiReq *r, int value)
 {
-  __CPROVER_assert(g_worker && r == &g_worker->req, "C16: only the worker's receive has a buffer");
+  __CPROVER_assert(g_worker && (r == (MpiReq *)0 || r == &g_worker->req), "C16: only the worker's receive has a buffer");
   if (g_worker) g_worker->current_job_ = value;
 }
 void VERIF_mpi_send_hook(Comm *c, int dest, int tag, _Bool has_value, int value)
@@ -197,7 +197,7 @@ __CPROVER_ensures(self->WorkerIndices.size == __CPROVER_old(self->WorkerIndices.
                   self->WorkerIndices.gpresent == __CPROVER_old(self->WorkerIndices.gpresent) && self->WorkerIndices.gval == __CPROVER_old(self->WorkerIndices.gval))
 //@end
 
-//@harness h_order_worker enforce=MPIMaster_order_worker props=C16 min_obl=895 reach=3 timeout=120
+//@harness h_order_worker enforce=MPIMaster_order_worker props=C16 min_obl=905 reach=3 timeout=120
 void h_order_worker(void)
 {
   struct MPIMaster *m; int worker, job;
@@ -260,7 +260,7 @@ __CPROVER_loop_invariant(MPI_n_outstanding >= 0 && MPI_n_outstanding <= (long)se
 __CPROVER_decreases(self->WorkerStack.size)
 //@end
 
-//@harness h_order enforce=MPIMaster_order props=C16 min_obl=1755 reach=3 timeout=300
+//@harness h_order enforce=MPIMaster_order props=C16 min_obl=1765 reach=3 timeout=300
 void h_order(void)
 {
   struct MPIMaster *m;
@@ -557,7 +557,7 @@ __CPROVER_loop_invariant(g_wp < 0 || ((long)i <= g_wp
 __CPROVER_decreases(self->Nprocs - i)
 //@end
 
-//@harness h_check_workers enforce=MPIMaster_check_workers props=C16 min_obl=1692 reach=4 timeout=300
+//@harness h_check_workers enforce=MPIMaster_check_workers props=C16 min_obl=1703 reach=4 timeout=300
 void h_check_workers(void)
 {
   struct MPIMaster *m;
@@ -589,11 +589,13 @@ void h_master_is_finished(void)
 /* ---------------------------------------------------------------- 5b. MPIWorker
  * "worker state machine Pending -> Work -> Pending ... -> Finish driven by a re-posted non-blocking receive".
  * type invariant: Status is one of the three tags; an active `req` is the receive posted for (boss, any tag) with a buffer
- * (the buffer is current_job_: asserted by the post hook whenever such a receive is posted). */
+ * (the buffer is current_job_: asserted by the post hook whenever such a receive is posted), and the program has left the buffer
+ * alone since (MPI-3.1 3.7.2): if the message was delivered eagerly, current_job_ still holds it. */
 static _Bool Worker_wf(struct MPIWorker *w)
 {
   return (w->Status == Pending || w->Status == Work || w->Status == Finish) &&
          (!w->req.active || (w->req.source == w->boss && w->req.tag == MPI_ANY_TAG_ && w->req.has_buf)) &&
+         (!w->req.active || !w->req.eager || w->current_job_ == w->req.msg) &&
          g_watch == &w->req;
 }
 /* ghost counters start in a range that excludes wrap-around */
@@ -614,14 +616,17 @@ __CPROVER_ensures(__CPROVER_return_value == (self->Status == Work))
 /* receive_order: nothing happens unless the worker is Pending.  A Pending worker polls its receive once:
  *   not complete -> nothing changes;
  *   complete     -> Status := tag of the message (ASSUMED peer behaviour, required below: the boss sends only Work or
- *                   Finish -- proved for MPIMaster by the send monitor), current_job_ := payload, the receive is
- *                   re-posted for (boss, any tag, current_job_) over the completed request, and cancelled iff Finish. */
+ *                   Finish -- proved for MPIMaster by the send monitor), current_job_ holds the payload of the completed receive
+ *                   (whether it was delivered eagerly or only now), the receive is re-posted for (boss, any tag, current_job_) over
+ *                   the completed request, and cancelled iff Finish.  If the RE-POSTED receive is itself satisfied eagerly, its
+ *                   payload replaces the job id at once (what the code does; it can only happen if the boss sends to a worker that
+ *                   has not reported yet, which MPIMaster's monitors exclude). */
 //@function pMPI::MPIWorker::receive_order() as MPIWorker_receive_order
 //@contract
 __CPROVER_requires(__CPROVER_is_fresh(self, sizeof(*self)) && g_worker == self)
 __CPROVER_requires(g_master == (struct MPIMaster *)0 && Worker_wf(self) && MPI_COUNTERS_BOUNDED(&self->Comm))
 __CPROVER_requires(MPI_next_tag == Work || MPI_next_tag == Finish)
-__CPROVER_assigns(self->Status, self->req, self->current_job_, MPI_n_outstanding, MPI_n_posted, MPI_next_tag, MPI_next_value)
+__CPROVER_assigns(self->Status, self->req, self->current_job_, MPI_n_outstanding, MPI_n_posted, MPI_next_tag, MPI_next_value, MPI_next_eager)
 __CPROVER_ensures(Worker_wf(self))
 /* not Pending, or the receive is not complete: nothing changes */
 __CPROVER_ensures(MPI_n_posted == __CPROVER_old(MPI_n_posted) || MPI_n_posted == __CPROVER_old(MPI_n_posted) + 1)
@@ -634,7 +639,8 @@ __CPROVER_ensures(__CPROVER_old(self->req.active) || MPI_n_posted == __CPROVER_o
 /* the receive completed: Pending -> Work | Finish, job id taken from the message, receive re-posted, cancelled on Finish */
 #define RO_DONE (MPI_n_posted == __CPROVER_old(MPI_n_posted) + 1)
 __CPROVER_ensures(!RO_DONE || (self->Status == __CPROVER_old(MPI_next_tag) && (self->Status == Work || self->Status == Finish)))
-__CPROVER_ensures(!RO_DONE || self->current_job_ == __CPROVER_old(MPI_next_value))
+__CPROVER_ensures(!RO_DONE || (self->req.msg == __CPROVER_old(MPI_next_value) && self->req.eager == __CPROVER_old(MPI_next_eager)))
+__CPROVER_ensures(!RO_DONE || self->current_job_ == (self->req.eager ? self->req.msg : __CPROVER_old(self->req.msg)))
 __CPROVER_ensures(!RO_DONE || (self->req.active && self->req.source == self->boss && self->req.tag == MPI_ANY_TAG_ && self->req.has_buf))
 __CPROVER_ensures(!RO_DONE || self->req.cancelled == (self->Status == Finish))
 __CPROVER_ensures(!RO_DONE || MPI_n_outstanding == __CPROVER_old(MPI_n_outstanding))
@@ -657,26 +663,28 @@ __CPROVER_ensures((self->Comm.g_dest == self->boss && self->Comm.g_tag == Pendin
 void h_worker_is_finished(void) { struct MPIWorker *w; MPIWorker_is_finished(w); REACH("exit"); }
 //@harness h_worker_is_working enforce=MPIWorker_is_working props=C16 min_obl=33 reach=1 timeout=60
 void h_worker_is_working(void) { struct MPIWorker *w; MPIWorker_is_working(w); REACH("exit"); }
-//@harness h_receive_order enforce=MPIWorker_receive_order props=C16 min_obl=316 reach=3 timeout=60
+//@harness h_receive_order enforce=MPIWorker_receive_order props=C16 min_obl=382 reach=4 timeout=60
 void h_receive_order(void) { struct MPIWorker *w; MPIWorker_receive_order(w); REACH("exit"); }
-//@harness h_report_job_done enforce=MPIWorker_report_job_done props=C16 min_obl=259 reach=2 timeout=60
+//@harness h_report_job_done enforce=MPIWorker_report_job_done props=C16 min_obl=283 reach=2 timeout=60
 void h_report_job_done(void) { struct MPIWorker *w; MPIWorker_report_job_done(w); REACH("exit"); }
 
 /* ---------------------------------------------------------------- 5c. MPIWorker::MPIWorker(comm, boss)
- * establishes the worker's type invariant: Pending, no job (-1), id = rank, exactly one receive posted for
- * (boss, any tag) into current_job_ (post hook), nothing sent. */
+ * establishes the worker's type invariant: Pending, id = rank, exactly one receive posted for (boss, any tag) into current_job_
+ * (post hook), nothing sent; current_job_ is -1 ("no job") UNLESS the first message was already queued and has been delivered
+ * during the irecv -- then it is that message (the initialisation must not come after the receive is posted: MPI-3.1 3.7.2). */
 //@tu src/mpi_dispatcher/mpi_dispatcher.cpp filter=pMPI::
 //@function pMPI::MPIWorker::MPIWorker(boost::mpi::communicator const&, int) as MPIWorker_ctor2
 //@contract
 __CPROVER_requires(__CPROVER_is_fresh(self, sizeof(*self)) && g_worker == self)
 __CPROVER_requires(g_master == (struct MPIMaster *)0 && __CPROVER_is_fresh(comm, sizeof(*comm)) && g_watch == &self->req && MPI_COUNTERS_BOUNDED(comm))
-__CPROVER_assigns(*self, MPI_n_outstanding, MPI_n_posted)
-__CPROVER_ensures(Worker_wf(self) && self->Status == Pending && self->current_job_ == -1 && self->id == comm->rank_ && self->boss == boss)
+__CPROVER_assigns(*self, MPI_n_outstanding, MPI_n_posted, MPI_next_value, MPI_next_eager)
+__CPROVER_ensures(Worker_wf(self) && self->Status == Pending && self->id == comm->rank_ && self->boss == boss)
+__CPROVER_ensures(self->req.msg == __CPROVER_old(MPI_next_value) && self->req.eager == __CPROVER_old(MPI_next_eager) && self->current_job_ == (self->req.eager ? self->req.msg : -1))
 __CPROVER_ensures(self->req.active && !self->req.cancelled && self->req.source == boss && self->req.tag == MPI_ANY_TAG_ && self->req.has_buf)
 __CPROVER_ensures(MPI_n_posted == __CPROVER_old(MPI_n_posted) + 1 && MPI_n_outstanding == __CPROVER_old(MPI_n_outstanding) + 1)
 __CPROVER_ensures(self->Comm.n_sends == comm->n_sends && self->Comm.rank_ == comm->rank_ && self->Comm.size_ == comm->size_)
 //@end
-//@harness h_worker_ctor enforce=MPIWorker_init2 props=C16 min_obl=234 reach=1 timeout=60
+//@harness h_worker_ctor enforce=MPIWorker_init2 props=C16 min_obl=291 reach=2 timeout=60
 void h_worker_ctor(void) { struct MPIWorker *w; Comm *c; int boss; MPIWorker_init2(w, c, boss); REACH("exit"); }
 
 /* ---------------------------------------------------------------- 6. mpi_skel<WrapType>::run, dissemination of the job map
@@ -799,6 +807,8 @@ void h_run_disseminate_root(void)
  * h_master_ctor_tasks       Comm(comm) dropped                                                 init3v.postcondition.2/.3
  * h_autorange_workers       rank() == p ; Nprocs(comm.size())                                  loop_invariant_step.1/.2 ; postcondition.1
  * h_autorange_tasks         out[i] = 0                                                         loop_invariant_step.2
+ * h_worker_ctor             member current_job_ declared after req (seeded C16-2): `current_job_ = -1` runs after the irecv
+ *                                                                                              init2.postcondition.1 (Worker_wf: eager => current_job_ == msg), .2 (current_job_ == (eager ? msg : -1))
  * h_run_disseminate_worker  job_map[workers[i]] = jobs[i]                                      loop_invariant_step.3
  *                           loop from i=1                                                      postcondition.1, loop_invariant_base.2
  *                           i < parts.size()                                                   postcondition.1, IntVec_at bounds, loop_invariant_step.1
